@@ -227,3 +227,10 @@ Example C12_example_shared_next_state_net :
   | None => False
   end.
 Proof. vm_compute. repeat split; reflexivity. Qed.
+
+(* a cover with inputs and NO rows is the constant 0 on its LAST signal *)
+Example C12_example_empty_cover :
+  cover_wf [L 0; L 1; L 2] [] = true
+  /\ extract_cover [L 0; L 1; L 2] [] = Some (L 2, BConst false)
+  /\ cover_sem [] [true; true] = false.
+Proof. vm_compute. repeat split; reflexivity. Qed.
